@@ -24,12 +24,21 @@ package car
 //@   ensures def [C05,C07]: result == (h.IndexOffset != 0)
 
 //@ func (Characteristics).WriteTo
+//@   call[littleEndian.PutUint64#0] assert hi_in_bytes_0_to_8 [C05]: arg2 == c.Hi && ref(arg1) == ref(buf) && len(arg1) == 8
+//@   call[littleEndian.PutUint64#1] assert lo_in_bytes_8_to_16 [C05]: arg2 == c.Lo && ref(arg1) == subref(buf, 8) && len(arg1) == 8
+//@   call[Writer.Write#0] assert writes_the_16_byte_buffer [C05]: ref(arg0) == ref(w) && ref(arg1) == ref(buf) && len(arg1) == 16
 //@   effect
 //@   modifies wn(w)
 //@   ensures count [C05,C16]: wn(w) == old(wn(w)) + n && 0 <= n && n <= 16
 //@   ensures full [C05]: err == nil ==> n == 16
 
 //@ func (*Characteristics).ReadFrom
+//@   let hi := call[littleEndian.Uint64#0]
+//@   let lo := call[littleEndian.Uint64#1]
+//@   call[io.ReadFull#0] assert reads_16_bytes_of_the_stream [C05]: ref(arg0) == ref(r) && ref(arg1) == ref(buf) && len(arg1) == 16
+//@   call[littleEndian.Uint64#0] assert hi_from_bytes_0_to_8 [C05]: ref(arg1) == ref(buf) && len(arg1) == 8
+//@   call[littleEndian.Uint64#1] assert lo_from_bytes_8_to_16 [C05]: ref(arg1) == subref(buf, 8) && len(arg1) == 8
+//@   ensures fields_are_the_decoded_words [C05,C07]: err == nil ==> c.Hi == hi && c.Lo == lo
 //@   modifies pos(r), c.Hi, c.Lo
 //@   ensures count [C05,C09]: pos(r) == old(pos(r)) + result0 && 0 <= result0 && result0 <= 16
 //@   ensures full [C05]: err == nil ==> result0 == 16
@@ -63,12 +72,29 @@ package car
 //@   ensures def [C05]: result == (bitof(n, pos) == 1)
 
 //@ func (Header).WriteTo
+//@   call[littleEndian.PutUint64#0] assert data_offset_in_bytes_0_to_8 [C05]: arg2 == h.DataOffset && ref(arg1) == ref(buf) && len(arg1) == 8
+//@   call[littleEndian.PutUint64#1] assert data_size_in_bytes_8_to_16 [C05]: arg2 == h.DataSize && ref(arg1) == subref(buf, 8) && len(arg1) == 8
+//@   call[littleEndian.PutUint64#2] assert index_offset_in_bytes_16_to_24 [C05]: arg2 == h.IndexOffset && ref(arg1) == subref(buf, 16) && len(arg1) == 8
+//@   call[Characteristics.WriteTo#0] assert characteristics_first [C05]: arg0 == h.Characteristics && ref(arg1) == ref(w) && wn(w) == old(wn(w))
+//@   call[Writer.Write#0] assert writes_the_24_byte_buffer [C05]: ref(arg0) == ref(w) && ref(arg1) == ref(buf) && len(arg1) == 24
 //@   effect
 //@   modifies wn(w)
 //@   ensures count [C05,C16]: wn(w) == old(wn(w)) + n && 0 <= n && n <= 40
 //@   ensures full [C05]: err == nil ==> n == 40
 
 //@ func (*Header).ReadFrom
+//@   let d0 := call[littleEndian.Uint64#0]
+//@   let d1 := call[littleEndian.Uint64#1]
+//@   let d2 := call[littleEndian.Uint64#2]
+//@   let rn, rerr := call[io.ReadFull#0]
+//@   let cn, cerr := call[Characteristics.ReadFrom#0]
+//@   call[Characteristics.ReadFrom#0] assert characteristics_first [C05]: ref(arg0) == ref(&h.Characteristics) && ref(arg1) == ref(r)
+//@   call[io.ReadFull#0] assert reads_24_bytes_of_the_stream [C05]: ref(arg0) == ref(r) && ref(arg1) == ref(buf) && len(arg1) == 24
+//@   call[littleEndian.Uint64#0] assert data_offset_from_bytes_0_to_8 [C05]: ref(arg1) == ref(buf) && len(arg1) == 8
+//@   call[littleEndian.Uint64#1] assert data_size_from_bytes_8_to_16 [C05]: ref(arg1) == subref(buf, 8) && len(arg1) == 8
+//@   call[littleEndian.Uint64#2] assert index_offset_from_bytes_16_to_24 [C05]: ref(arg1) == subref(buf, 16) && len(arg1) == 8
+//@   ensures fields_are_the_decoded_words [C05,C07]: err == nil ==> h.DataOffset == d0 && h.DataSize == d1 && h.IndexOffset == d2
+//@   ensures wellformed_header_is_accepted [C05,C07]: cerr == nil && rerr == nil && 51 <= wrap_s64(d0) && 0 < wrap_s64(d1) && 0 <= wrap_s64(d2) ==> err == nil
 //@   modifies pos(r), h.Characteristics.Hi, h.Characteristics.Lo, h.DataOffset, h.DataSize, h.IndexOffset
 //@   ensures count [C05,C09]: pos(r) == old(pos(r)) + result0 && 0 <= result0 && result0 <= 40
 //@   ensures full [C05]: err == nil ==> result0 == 40
